@@ -126,6 +126,7 @@
       *(g)->edgeLabels.valPQ, *(g)->edgeLabels.valQP, bg_exc, BG_SCRATCH_(L)
 #define D_FRAME_CONST(L) bg_exc, BG_SCRATCH_(L)
 
+#define BG_VAL_CLEAN(L) (!bg_scratch_val_##L.valid && !bg_scratch_val_##L.out)
 #define BG_LIFT_ENF(c) (c)
 #define BG_LIFT_REP(c) 1
 
